@@ -84,6 +84,82 @@ func largeScale(t *rapid.T, prop string, kind gen.StoreKind) {
 			u.noteLayout("burst")
 		}
 	}
+	// merge phase: the store absorbs a series of argument stores (as an aggregator does), each built from tens to
+	// hundreds of additions of the same distribution, with further additions in between and a look at the result only
+	// every few merges
+	if rapid.Bool().Draw(t, "mergephase") {
+		nm := rapid.IntRange(3, 40).Draw(t, "merges")
+		every := rapid.IntRange(1, 8).Draw(t, "mergecheck")
+		// drift: the hot region moves left (or right) by a fraction of a page to a few pages per merge, so that new pages /
+		// array slots keep being created beyond the current first (last) one, by whatever operation happens to trigger it
+		drift, cursor, hotW := 0, base, 32*(1+int(lcg()%4))
+		switch lcg() % 3 {
+		case 1:
+			drift = -(8 + int(lcg()%120))
+			cl.label("merge-phase:drift-left")
+		case 2:
+			drift = 8 + int(lcg()%120)
+			cursor = base + width
+			cl.label("merge-phase:drift-right")
+		}
+		draw := func() int {
+			if drift != 0 && lcg()%8 != 0 {
+				return cursor + int(lcg()%uint64(hotW))
+			}
+			if tails > 0 && lcg()%40 == 0 {
+				return base - tailSpan + int(lcg()%uint64(2*tailSpan))
+			}
+			switch lcg() % 3 {
+			case 0:
+				return base + int(lcg()%uint64(width))
+			case 1:
+				return base + int(lcg()%uint64(width/8+1)) // a hot region: many entries per page
+			default:
+				return base - 300 - int(lcg()%uint64(width/4+1)) // left of the body: pages / array slots before the first one
+			}
+		}
+		for j := 0; j < nm; j++ {
+			ak := kind
+			if lcg()%3 == 0 {
+				ak = gen.NonCollapsing[lcg()%3]
+			}
+			arg, am := ak.New(), model.Map{}
+			na := 10 + int(lcg()%400)
+			if lcg()%2 == 0 {
+				na = 5 + int(lcg()%60) // stays entirely in a paginated argument's buffer
+			}
+			for i := 0; i < na; i++ {
+				idx := draw()
+				if lcg()%20 == 0 {
+					w := float64(2 + lcg()%5)
+					arg.AddWithCount(idx, w)
+					am.Add(idx, w)
+				} else {
+					arg.Add(idx)
+					am.Add(idx, 1)
+				}
+			}
+			cursor += drift
+			u.s.MergeWith(arg)
+			u.m.Merge(expected(ak, am))
+			if d := am.Total() - arg.TotalCount(); d != 0 {
+				t.Fatalf("%s large-scale %s: MergeWith changed its %s argument's total by %v", prop, kind, ak, -d)
+			}
+			for i := int(lcg() % 30); i > 0; i-- {
+				idx := draw()
+				u.s.Add(idx)
+				u.m.Add(idx, 1)
+			}
+			if (j+1)%every == 0 || j == nm-1 {
+				if msg := u.invariant(); msg != "" {
+					t.Fatalf("%s large-scale %s: after merge %d of %d (argument kind %s, %d additions) the observation differs from the model: %s", prop, kind, j+1, nm, ak, na, msg)
+				}
+				u.noteLayout("merge")
+			}
+		}
+		cl.label("large-scale-merge-phase")
+		stats.Count(prop, "large_scale_merges", int64(nm))
+	}
 	// round-trips at scale
 	enc := encodeStore(u.s)
 	fresh := kind.New()
